@@ -24,6 +24,7 @@ var vrfEntries = map[string]func(){
 	"VrfC12PinLs":  VrfC12PinLs,
 	"VrfC12RepoStat": VrfC12RepoStat,
 	"VrfC12Router":   VrfC12Router,
+	"VrfC12RepoGC":   VrfC12RepoGC,
 }
 
 type vrfWriter struct {
@@ -32,6 +33,7 @@ type vrfWriter struct {
 	status    int
 	documents int
 	last      []byte // the last body chunk written
+	all       [][]byte
 }
 
 func (w *vrfWriter) Header() http.Header { return w.hdr }
@@ -41,6 +43,7 @@ func (w *vrfWriter) Write(b []byte) (int, error) {
 	}
 	w.documents++
 	w.last = b
+	w.all = append(w.all, append([]byte{}, b...))
 	return len(b), nil
 }
 func (w *vrfWriter) WriteHeader(code int) {
@@ -68,6 +71,8 @@ type vrfSvc struct {
 	readFails bool      // Pins / PinGet / Peers fail
 	peers     []peer.ID
 	stats     map[peer.ID]*api.IPFSRepoStat // nil entry = unreachable
+	gc        *api.GlobalRepoGC
+	gcFails   bool
 }
 
 func (s *vrfSvc) answer() bool {
@@ -130,6 +135,17 @@ func (a *vrfClusterAPI) Pins(ctx context.Context, in struct{}, out *[]*api.Pin) 
 	}
 	for _, c := range a.s.pinset {
 		*out = append(*out, api.PinCid(c))
+	}
+	return nil
+}
+
+func (a *vrfClusterAPI) RepoGC(ctx context.Context, in struct{}, out *api.GlobalRepoGC) error {
+	a.s.calls = append(a.s.calls, vrfCall{svc: "Cluster", method: "RepoGC", ok: !a.s.gcFails})
+	if a.s.gcFails {
+		return vrfErrCluster
+	}
+	if a.s.gc != nil {
+		*out = *a.s.gc
 	}
 	return nil
 }
@@ -561,6 +577,7 @@ func VrfC12Router() {
 		{"/api/v0/pin/rm", "UnpinPath", ""}, {"/api/v0/pin/rm/" + c0, "UnpinPath", ""},
 		{"/api/v0/pin/ls", "PinGet", ""}, {"/api/v0/pin/ls/" + c0, "PinGet", ""},
 		{"/api/v0/pin/update", "", ""}, {"/api/v0/repo/stat", "Peers", ""},
+		{"/api/v0/repo/gc", "RepoGC", ""}, {"/api/v0/add", "", ""},
 		// the same commands spelled with percent-escapes (the daemon would decode them too)
 		{"/api/v0/pin/add", "PinPath", "/api/v0/pin/%61dd"}, {"/api/v0/pin/rm", "UnpinPath", "/api/v0/pin/r%6D"},
 		// not hijacked
@@ -592,4 +609,97 @@ func VrfC12Router() {
 		vrf_assert(first == rt.op, "C12.router.route-performs-its-operation")
 	}
 	vrf_reach("C12.router.end-hijacked")
+}
+
+// VrfC12RepoGC: repo/gc is answered by the cluster-wide collection: one
+// Cluster.RepoGC call, every collected key of every peer reported exactly once,
+// and every per-key error reported - in the line itself with stream-errors=true,
+// in the X-Stream-Error trailer otherwise.
+func VrfC12RepoGC() {
+	s := &vrfSvc{gcFails: vrf_nondet_bool("cluster_gc_fails"), stats: map[peer.ID]*api.IPFSRepoStat{}}
+	s.gc = &api.GlobalRepoGC{PeerMap: map[string]*api.RepoGC{}}
+	type want struct {
+		key  cid.Cid
+		err  string
+		seen int
+	}
+	var wants []*want
+	n := vrf_choice("peers", 3)
+	k := 0
+	for i := 0; i < n; i++ {
+		pid := []string{"pA", "pB"}[i]
+		g := &api.RepoGC{Peer: peer.ID(pid)}
+		nk := vrf_choice("keys", vrf_param("gc_keys")+1)
+		for j := 0; j < nk; j++ {
+			e := ""
+			if vrf_choice("key_error", 2) == 1 {
+				e = []string{"gc: cannot remove one", "gc: cannot remove two", "gc: cannot remove three", "gc: cannot remove four"}[k%4]
+			}
+			g.Keys = append(g.Keys, api.IPFSRepoGC{Key: vrfTestCid(k % 3), Error: e})
+			wants = append(wants, &want{key: vrfTestCid(k % 3), err: e})
+			k++
+		}
+		s.gc.PeerMap[pid] = g
+	}
+	p := vrfNewProxy(s)
+	q := url.Values{}
+	stream := false
+	switch vrf_choice("stream_errors", 3) {
+	case 1:
+		q.Set("stream-errors", "true")
+		stream = true
+	case 2:
+		q.Set("stream-errors", "false")
+	}
+	r := &http.Request{Method: "POST", URL: &url.URL{Path: "/api/v0/repo/gc", RawQuery: q.Encode()}, Header: http.Header{}}
+	w := &vrfWriter{hdr: http.Header{}}
+	p.repoGCHandler(w, r)
+	vrf_assert(w.headers == 1, "C12.response.one-status")
+	asked, others := 0, 0
+	for _, c := range s.calls {
+		if c.svc == "Cluster" && c.method == "RepoGC" {
+			asked++
+		} else {
+			others++
+		}
+	}
+	vrf_assert(asked == 1 && others == 0, "C12.repogc.one-cluster-collection")
+	if s.gcFails {
+		vrf_assert(w.status >= 400, "C12.repogc.error-reported")
+		vrf_reach("C12.repogc.end-error")
+		return
+	}
+	vrf_assert(w.status == 200, "C12.repogc.ok")
+	vrf_assert(len(w.all) == len(wants), "C12.repogc.one-line-per-key")
+	for _, line := range w.all {
+		var resp ipfsRepoGCResp
+		vrf_assert(json.Unmarshal(line, &resp) == nil, "C12.repogc.line-decodes")
+		found := false
+		for _, wt := range wants {
+			// the same key can be collected by two peers: match error text too
+			if !found && wt.seen == 0 && wt.key.Equals(resp.Key) && (!stream || wt.err == resp.Error) {
+				wt.seen++
+				found = true
+			}
+		}
+		vrf_assert(found, "C12.repogc.line-is-a-collected-key")
+		if !stream {
+			vrf_assert(resp.Error == "", "C12.repogc.errors-in-trailer-only")
+		}
+	}
+	trailer := w.hdr.Get("X-Stream-Error")
+	anyErr := false
+	for _, wt := range wants {
+		vrf_assert(wt.seen == 1, "C12.repogc.every-key-once")
+		if wt.err != "" {
+			anyErr = true
+			if !stream {
+				vrf_assert(vrf_strcontains(trailer, wt.err), "C12.repogc.error-reported-in-trailer")
+			}
+		}
+	}
+	if stream || !anyErr {
+		vrf_assert(trailer == "", "C12.repogc.no-spurious-trailer")
+	}
+	vrf_reach("C12.repogc.end")
 }
